@@ -202,8 +202,17 @@ impl Parser for Markdown {
                 | pulldown_cmark::Event::End(pulldown_cmark::TagEnd::Heading(_))
                 | pulldown_cmark::Event::End(pulldown_cmark::TagEnd::CodeBlock)
                 | pulldown_cmark::Event::End(pulldown_cmark::TagEnd::TableCell) => {
+                    // The break sits at the end of the block it closes (the cursor is still at the
+                    // start of the block's last piece of text).
+                    let block_end = range.end.max(traversed_bytes);
+                    let end_chars = traversed_chars
+                        + source_str[traversed_bytes..block_end]
+                            .trim_end_matches(['\n', '\r'])
+                            .chars()
+                            .count();
+
                     tokens.push(Token {
-                        span: Span::new_with_len(traversed_chars, 0),
+                        span: Span::new_with_len(end_chars, 0),
                         kind: TokenKind::ParagraphBreak,
                     });
                     stack.pop();
